@@ -11,6 +11,7 @@ mod trees;
 mod k5;
 mod k6;
 mod k7;
+mod k8;
 mod k9;
 mod inputs;
 mod planners;
@@ -24,7 +25,9 @@ mod s10;
 mod s11;
 mod s14;
 mod report;
+mod s02t;
 mod s04;
+mod s05;
 mod util;
 
 fn main() {
@@ -50,8 +53,12 @@ fn main() {
         "k5" => k5::run(rest),
         "k6" => k6::run(rest),
         "k7" => k7::run(rest),
+        "k8" => k8::run(rest),
+        "bflyops" => k8::bflyops(rest),
         "k9" => k9::run(rest),
+        "s02t" => s02t::run(rest),
         "s04" => s04::run(rest),
+        "s05" => s05::run(rest),
         "s06" => s06::run(rest),
         "s07" => s07::run(rest),
         "s09" => s09::run(rest),
